@@ -103,7 +103,7 @@ func (db *Database) SearchWithPipelineOptions(query string, options SearchOption
 
 // sortAndLimitResults sorts results by score and applies limit
 func (db *Database) sortAndLimitResults(results []SearchResult, limit int) []SearchResult {
-	sort.Slice(results, func(i, j int) bool {
+	sort.SliceStable(results, func(i, j int) bool {
 		return results[i].Score > results[j].Score
 	})
 
@@ -632,7 +632,7 @@ func (db *Database) combineAndDeduplicateResults(exactResults, fuzzyResults []Se
 	}
 
 	// Sort by score
-	sort.Slice(combined, func(i, j int) bool {
+	sort.SliceStable(combined, func(i, j int) bool {
 		return combined[i].Score > combined[j].Score
 	})
 
@@ -677,6 +677,7 @@ func (db *Database) GetSuggestions(query string, maxSuggestions int) []string {
 	for word := range wordSet {
 		words = append(words, word)
 	}
+	sort.Strings(words) // fixed order: equally good suggestions must not depend on map iteration
 
 	// Find fuzzy matches for the query
 	matches := fuzzyFind(query, words)
@@ -797,7 +798,7 @@ func (db *Database) SearchWithNLP(query string, options SearchOptions) []SearchR
 	}
 
 	// Re-sort by updated scores
-	sort.Slice(results, func(i, j int) bool {
+	sort.SliceStable(results, func(i, j int) bool {
 		return results[i].Score > results[j].Score
 	})
 
